@@ -3,6 +3,7 @@ package vapp
 import (
 	"fmt"
 	"math/rand"
+	"strings"
 )
 
 // Workload generators: seeded random abstract histories.  They only produce *requests*;
@@ -208,6 +209,15 @@ func FamilyScenario(family string, seed int64, i, blocks, maxTx int) *Scenario {
 	if family == "olvm" {
 		gs = OlvmGenesis()
 	}
+	// "<family>@gas": the same workload on a chain whose genesis limits the gas of a block (consensus parameter
+	// block.max_gas); the limit differs per history so that blocks end below, near and above it
+	if strings.HasSuffix(family, "@gas") {
+		base := strings.TrimSuffix(family, "@gas")
+		sc := FamilyScenario(base, seed, i, blocks, maxTx)
+		sc.ID = fmt.Sprintf("%s-%d-%d", family, seed, i)
+		sc.Genesis.MaxGas = int64(30000 + 7919*(i%23))
+		return sc
+	}
 	id := fmt.Sprintf("%s-%d-%d", family, seed, i)
 	g := NewGen(seed*1000003+int64(i), gs)
 	switch family {
@@ -225,6 +235,7 @@ func FamilyScenario(family string, seed int64, i, blocks, maxTx int) *Scenario {
 
 // FamilyKinds lists the transaction kinds a family draws from.
 func FamilyKinds(family string) []string {
+	family = strings.TrimSuffix(family, "@gas")
 	switch family {
 	case "base", "benign":
 		return BaseKinds
